@@ -37,6 +37,7 @@ type CarrierPlan struct {
 	Refuse int     `json:"refuse,omitempty"` // the forwarder resets this many dial attempts first
 	HoldMs int     `json:"hold_ms,omitempty"` // extras: how long the client end stays
 	DelayMs int    `json:"delay_ms,omitempty"` // the pool is empty for so long before this carrier can be had
+	Flood   int    `json:"flood,omitempty"`    // after this carrier's preamble and before its first packet, so many other carriers attach (each with its own ClientID)
 	Other  int     `json:"other,omitempty"`  // extras with Pres "id": present the ClientID of this session (index)
 }
 
@@ -205,6 +206,13 @@ func (r *Rig) hook(point string, args ...interface{}) {
 			return
 		}
 		rec := l.Rec
+		if ctr, ok := l.Owner.(*int32); ok {
+			// a flood carrier: only counted
+			if point == "srv.attached" {
+				atomic.AddInt32(ctr, 1)
+			}
+			return
+		}
 		if own, ok := l.Owner.(*session); ok && own != nil {
 			// system rig: the real client chose the ClientID; learn it from the
 			// first carrier of the scenario's only session
@@ -390,7 +398,7 @@ func (c *carrier) Close() error                { c.end("closed"); return nil }
 // staleness closes the carrier when nothing has been received for the
 // staleness time, like WebRTCPeer.checkForStaleness does for a real peer
 // (20 s there, scaled down here).
-func (c *carrier) staleness(d time.Duration) {
+func (c *carrier) staleness(d time.Duration, finished func() bool) {
 	atomic.StoreInt64(&c.last, time.Now().UnixNano())
 	t := time.NewTicker(d / 8)
 	defer t.Stop()
@@ -400,6 +408,10 @@ func (c *carrier) staleness(d time.Duration) {
 			return
 		case <-t.C:
 			if time.Since(time.Unix(0, atomic.LoadInt64(&c.last))) > d {
+				if finished != nil && finished() {
+					// a session that has nothing left to move is legitimately silent
+					continue
+				}
 				c.end("stale")
 				return
 			}
@@ -686,10 +698,16 @@ func (s *session) dialContext(ctx context.Context) (net.PacketConn, error) {
 			c.end("client")
 			continue
 		}
+		if pl.Flood > 0 {
+			// the session's first packet is still queued in the redial layer: its KCP
+			// session does not exist yet at the server
+			n := sr.flood(pl.Flood)
+			sr.rec.Struct("srv.flood", "n", n)
+		}
 		s.cmu.Lock()
 		s.cur = c
 		s.cmu.Unlock()
-		go c.staleness(sr.stale)
+		go c.staleness(sr.stale, s.complete)
 		return &encapConn{c: c}, nil
 	}
 }
@@ -875,6 +893,60 @@ func (s *session) forget() {
 	if atomic.LoadInt32(&s.convSet) != 0 {
 		s.sc.rig.byConv.Delete(s.conv)
 	}
+}
+
+// flood attaches n throw-away carriers, each presenting the token and a
+// ClientID of its own, and returns how many the server attached (counted at
+// the srv.attached hook, i.e. after clientIDAddrMap.Set returned).
+func (sr *scenarioRun) flood(n int) int {
+	var attached int32
+	discard := NewRecorder()
+	one := func(i int) {
+		link := &Link{K: 0, Rec: discard, Owner: &attached}
+		d := websocket.Dialer{NetDial: func(network, addr string) (net.Conn, error) { return sr.rig.Fwd.Dial(link) }, HandshakeTimeout: 10 * time.Second}
+		ws, _, err := d.Dial("ws://"+sr.rig.Fwd.Addr()+"/?client_ip=203.0.113.77", nil)
+		if err != nil {
+			return
+		}
+		conn := websocketconn.New(ws)
+		var id turbotunnel.ClientID
+		binary.BigEndian.PutUint64(id[:], 0xF100000000000000|uint64(i))
+		conn.Write(turbotunnel.Token[:])
+		conn.Write(id[:])
+		time.Sleep(30 * time.Millisecond) // let the two messages leave before the close frame
+		conn.Close()
+	}
+	seq := 0
+	for round := 0; round < 30; round++ {
+		need := n - int(atomic.LoadInt32(&attached))
+		if need <= 0 {
+			break
+		}
+		sem := make(chan struct{}, 48)
+		var wg sync.WaitGroup
+		for j := 0; j < need; j++ {
+			sem <- struct{}{}
+			wg.Add(1)
+			seq++
+			go func(i int) {
+				defer wg.Done()
+				defer func() { <-sem }()
+				one(i)
+			}(seq)
+		}
+		wg.Wait()
+		// settle: wait until the count has been stable for a while
+		last, stable := atomic.LoadInt32(&attached), 0
+		for stable < 30 {
+			time.Sleep(10 * time.Millisecond)
+			if cur := atomic.LoadInt32(&attached); cur == last {
+				stable++
+			} else {
+				last, stable = cur, 0
+			}
+		}
+	}
+	return int(atomic.LoadInt32(&attached))
 }
 
 // runExtra opens one carrier outside any redial loop.
